@@ -9,6 +9,8 @@ emissions in that vault, settles accrual at the old rate first and bounds the in
 the wrap discipline of reward growth values; reward growth inside a range per reward
 index (both implementations: the three-way selection per bound, one index everywhere,
 uninitialised rewards skipped); tick crossings in a swap use the growth accrued up to it.
+Also decided: rewards are credited on the liquidity held before the change (C07.R5 instances re-decided
+here);
 Not decided: accrued amounts versus the exact pro-rata share."""
 from analysis import cfg, atoms as A, preach, writes, accounts as ACC
 from analysis.ir import callee_path, AnchorMissing
